@@ -217,7 +217,46 @@ def rules(ctx, tier):
     cleanup_complete(ctx, r, report)
     r.need(3, "report lists walked by the clean-up entry points")
     out.append(r.finish())
+
+    r = Rule("R8", "verification is on exactly when the caller's setting says so: the switch handed to the scan is one value "
+                   "of the caller (a parameter, one configuration field, or a literal), not a combination",
+             "the start-up scan verifies only when some other option is set as well: with verification on, damaged "
+             "referenced blobs are not reported as corrupted")
+    if sb is not None:
+        verify_switch(ctx, r, sb)
+    r.need(1, "verification switch of the scan")
+    out.append(r.finish())
     return out
+
+
+def verify_switch(ctx, r, sb):
+    prog = ctx.prog
+    scan = prog.bodies.get(sb.path)
+    if scan is None:
+        r.bad("scan-fn", None, "cannot identify the scan function")
+        return
+    bools = [i for i in range(1, scan.argc + 1) if prog.ty_str(scan.locals[i]) == "bool"]
+    n = 0
+    for (csite, how) in prog.callers_index().get(scan.path, []):
+        if how != "direct":
+            continue
+        b = csite.body
+        sl = Slicer(ctx.world, b)
+        for i in bools:
+            if i - 1 >= len(csite.term["args"]):
+                continue
+            lv = sl.leaves_up(csite.term["args"][i - 1], depth=3)
+            n += 1
+            plain = len(lv) == 1 and list(lv)[0][0] in ("param", "xparam", "const", "upvar", "xupvar")
+            r.check(plain, "verify-arg:%s" % stable_path(b), b,
+                    "the switch handed to the scan at %s is %s" % (site_where(csite), ", ".join(fmt_leaf(l) for l in lv)),
+                    "the verification switch handed to the scan at %s is computed from %s: verification requested by the "
+                    "caller can be silently off" % (site_where(csite), sorted(fmt_leaf(l) for l in lv)), site_where(csite))
+    if not bools:
+        # the scan reads the switch itself from a settings value it is handed: nothing is combined at a call site
+        r.ok("verify-arg:in-scan", scan, "%s takes no boolean switch (it reads its settings itself)" % scan.path)
+    elif n == 0:
+        r.bad("verify-arg", scan, "no call site of %s found" % scan.path)
 
 
 def cleanup_complete(ctx, r, report):
